@@ -7,6 +7,7 @@ from . import core_strat as st_
 from . import algos_sched as sched
 from . import algos_flow as flow
 from . import core_ops as ops
+from . import backtest_run as btr
 
 UPD = [("date", "date"), ("data", "none"), ("inow", "optint")]
 
@@ -24,6 +25,10 @@ P_SECUPD = {
     "raises": ("C10",), "_coupon": ("C17", "C02"), "_holding_cost": ("C17", "C02"), "_capital": ("C17", "C02"), "_coupon_income": ("C17", "C08"),
     "_holding_costs": ("C17", "C08"), "*": ("C01", "C08"),
 }
+
+
+def ops_verify_flatten(ex, contract, timeout_ms=30000):
+    return ops.verify_flatten(ex, contract, timeout_ms=timeout_ms)
 
 
 def build():
@@ -44,13 +49,16 @@ def build():
     reg(FunctionalContract("bt.core.SecurityBase.transact", [("q", "float"), ("update", "bool"), ("update_self", "bool"), ("price", "optfloat")], cs.spec_transact, self_cls="SecurityBase", field_props=P_TRANSACT))
     reg(ca.allocate_contract(), ca.verify_allocate)
     reg(st_.update_contract(), st_.verify_update)
-    reg(st_.flatten_contract(), None)
-    verifiers.pop("bt.core.StrategyBase.flatten")
+    reg(st_.flatten_contract(), ops_verify_flatten)
     for c in sched.contracts():
         reg(c)
     verifiers.pop("bt.algos.RunPeriod.compare_dates")
     for c, v in flow.contracts():
         reg(c, v)
+    for c, v in btr.contracts():
+        reg(c, v)
+        if v is None:
+            verifiers.pop(c.qualname)
     for c, v in ops.contracts():
         reg(c, v)
         if v is None:
@@ -63,6 +71,8 @@ def build():
         ("bt.core.StrategyBase.update", 2): st_.LOOP3,
     }
     loops.update(flow.LOOPS)
+    loops.update(btr.LOOPS)
+    loops.update(ops.LOOPS)
     # state merging at if-joins keeps StrategyBase.update at tens of paths; for the non-linear sizing
     # search of allocate separate paths are much easier for the solver
     options = {"bt.core.SecurityBase.allocate": dict(merge=False)}
